@@ -1183,7 +1183,14 @@ def subst(t, mapping: Dict[Term, Term]):
         return (k, tuple(sorted((subst(x, mapping) for x in t[1]), key=repr)))
     if k == "bag":
         return (k, t[1], tuple(sorted((subst(x, mapping) for x in t[2]), key=repr)))
-    return tuple(subst(x, mapping) if isinstance(x, tuple) else x for x in t)
+    r = tuple(subst(x, mapping) if isinstance(x, tuple) else x for x in t)
+    if k == "call" and r[1] in ("int", "float", "bool") and len(r[2]) == 1 and not r[3]:
+        a = r[2][0]
+        if a[0] == "const" and isinstance(a[1], bool):
+            return lin({}, Fraction(int(a[1]))) if r[1] != "bool" else a
+        if number(a) is not None and r[1] == "float":
+            return a
+    return r
 
 
 def bool_value(outs: List[Outcome]) -> Term:
